@@ -84,6 +84,7 @@ type state struct {
 	batches       atomic.Int64
 	suspendedExec atomic.Int64
 	maskedRI      atomic.Int64
+	badArgExecs   atomic.Int64
 	hung          atomic.Int64
 }
 
@@ -192,6 +193,7 @@ func (s *state) handle(worker int, progs []*cdrive.ProgInfo) {
 		s.steps.Add(j.Steps)
 		s.suspendedExec.Add(j.Suspended)
 		s.maskedRI.Add(j.MaskedRI)
+		s.badArgExecs.Add(j.BadArgExecs)
 		s.hung.Add(j.Hung)
 		if j.CappedExec || j.CappedStates || j.CappedTuples {
 			s.cappedProgs.Add(1)
@@ -242,6 +244,19 @@ func (s *state) handle(worker int, progs []*cdrive.ProgInfo) {
 				continue
 			}
 			crashed[c.Prog] = true
+			// The driver died in execution number len(Partial)/8 of the program. If
+			// that call was made with an out-of-domain argument, the body ran (or the
+			// check itself is broken) although the envelope must refuse the call.
+			j := jobs[c.Prog]
+			if k := len(c.Partial) / 8; k < j.NumExecs() {
+				if ba, isBad := j.BadArgOf(k); isBad {
+					hist, call := j.History(k)
+					s.r.Violation(fmt.Sprintf("argcheck|%s|%s", ba.Type, ba.Bound),
+						fmt.Sprintf("a public call with an out-of-domain argument (%s, %s bound) was not refused: the compiled C (%s) died in it: %s", ba.Type, ba.Bound, cfg.Name, c.Kind),
+						Witness{Family: pi.Family, Tags: pi.Tags, Program: pi.Src, Config: cfg.Name, History: hist, Call: call, Item: "process death: " + c.Kind,
+							Interp: "call refused by the argument check (#base: bad argument / zero value, impure receiver disabled)", Note: c.Stderr})
+				}
+			}
 		}
 		for i := range b.Progs {
 			if out[i] == nil {
@@ -376,7 +391,12 @@ func (s *state) report(b *cdrive.Batch, cfg cdrive.Config, prog int, j *cdrive.J
 	w := Witness{Family: pi.Family, Tags: pi.Tags, Program: pi.Src, Config: cfg.Name, History: hist, Call: call,
 		Item: div.Label, C: div.C, Interp: div.Interp, CTrace: div.CText, ITrace: div.IText, DivergesAt: div.Call}
 	what := fmt.Sprintf("generated C (%s) and the reference semantics disagree on %s after call %d of the history: C %s, Wuffs %s", cfg.Name, div.Label, div.Call, div.C, div.Interp)
-	s.r.Violation(signature(pi, div.Label), what, w)
+	sig := signature(pi, div.Label)
+	if ba, isBad := j.BadArgOf(k); isBad && div.Call == len(calls)-1 {
+		sig = fmt.Sprintf("argcheck|%s|%s", ba.Type, ba.Bound)
+		what = fmt.Sprintf("a public call with an out-of-domain argument (%s, %s bound) is not refused as the argument check demands: ", ba.Type, ba.Bound) + what
+	}
+	s.r.Violation(sig, what, w)
 }
 
 func scratchDir() (string, bool) {
@@ -417,8 +437,8 @@ func main() {
 	s := &state{r: r, tools: tools, famPrograms: map[string]int64{}, famCompared: map[string]int64{}, constructs: map[string]int64{},
 		statuses: map[string]int64{}, crashKinds: map[string]int64{}, cfgCompared: map[string]int64{}, sampleFam: map[string]int{}, compileSec: map[string]float64{}, gccKinds: map[string]bool{}}
 	cfg := cdrive.WalkConfig{Tier: r.Tier, BatchSize: 96,
-		Families: []string{"extras", "loops", "calls", "io", "coro", "seeds", "arith", "index", "refine", "facts"},
-		Extra:    map[string]progen.Family{"extras": extras()},
+		Families: []string{"argcheck", "extras", "loops", "calls", "io", "coro", "seeds", "arith", "index", "refine", "facts"},
+		Extra:    map[string]progen.Family{"extras": extras(), "argcheck": argcheck()},
 		MaxLevel: map[string]int{},
 	}
 	// VERIF_STOP_ON_VIOLATION=1 (speeds up detection self-tests): stop walking as
@@ -441,7 +461,7 @@ func main() {
 		// the quick grammars, the thorough grammars of the families that are about
 		// cgen's lowering (loops, calls, arith), then - as far as the budget goes -
 		// the thorough io / coro grammars (coroutines are C05's main course).
-		cfg.Families = []string{"extras", "loops", "calls", "seeds", "io@quick", "coro@quick", "arith@quick", "index@quick", "refine@quick", "facts@quick",
+		cfg.Families = []string{"argcheck", "extras", "loops", "calls", "seeds", "io@quick", "coro@quick", "arith@quick", "index@quick", "refine@quick", "facts@quick",
 			"arith", "io", "coro", "index"}
 		cfg.MaxLevel["facts@quick"], cfg.MaxLevel["refine@quick"] = 2, 3
 	} else {
@@ -481,8 +501,10 @@ func main() {
 	for _, p := range ws.Problems {
 		s.problem("%s", p)
 	}
-	if fc := ws.Families["extras"]; fc != nil && fc.Rejected > 0 {
-		s.problem("%d hand-written programs of the extras family are rejected by the checker", fc.Rejected)
+	for _, own := range []string{"extras", "argcheck"} {
+		if fc := ws.Families[own]; fc != nil && (fc.Rejected > 0 || fc.Unsupported > 0) {
+			s.problem("%d hand-written programs of the %s family are rejected by the checker (%d outside the interpreter's subset)", fc.Rejected, own, fc.Unsupported)
+		}
 	}
 	r.MergeHist("constructs_in_compared_programs", s.constructs)
 	r.MergeHist("statuses_returned", s.statuses)
@@ -522,6 +544,7 @@ func main() {
 			"executions_not_replayed_because_the_interpreter_found_a_safety_violation (C01)":                            s.notReplayed.Load(),
 			"executions_whose_reader_position_is_not_compared (suspended inside a partially available multi-byte read)": s.maskedRI.Load(),
 			"interpreter_executions_that_hit_the_step_limit (not replayed)":                                             s.hung.Load(),
+			"executions_with_an_out_of_domain_argument (refined bound -/+ 1, type min / max, -1, NULL io)": s.badArgExecs.Load(),
 			"executions_ending_in_a_suspension":                                                                         s.suspendedExec.Load(),
 			"programs_with_capped_exploration":                                                                          s.cappedProgs.Load(),
 			"programs_whose_signature_the_driver_cannot_call":                                                           s.unsupported.Load(),
